@@ -49,7 +49,12 @@ TAXFN = ("taxfn",)          # TaxonNamespace.get_taxa(labels=...) of the tree's 
 NNDICT = ("nndict",)        # dict node -> node
 SNFN = ("snfn",)            # callable node -> truth value that reads the object graph when called
 LABEL = ("label",)          # a label value (copied, never inspected)
-DICT_TYS = [NDICT, NNDICT]
+NTDICT = ("ntdict",)        # dict node -> taxon
+OTDICT = ("otdict",)        # dict (taxon or None) -> taxon
+DICT_TYS = [NDICT, NNDICT, NTDICT, OTDICT]
+# dict type -> (key type, equality of keys, value type); keys are hashed / compared by identity
+DICTS = {NDICT: (NODE, "(mg_eqb G)", INT), NTDICT: (NODE, "(mg_eqb G)", TAXON),
+         OTDICT: (("opt", TAXON), "(option_eqb Z.eqb)", TAXON)}
 
 
 def TList(t): return ("list", t)
@@ -73,6 +78,8 @@ def coq_ty(t):
     if k == "keyfn": return "((mst G) -> (mnode G) -> Z)"
     if k == "ndict": return "(list ((mnode G) * Z))"
     if k == "nndict": return "(list ((mnode G) * (mnode G)))"
+    if k == "ntdict": return "(list ((mnode G) * Z))"
+    if k == "otdict": return "(list ((option Z) * Z))"
     if k == "snfn": return "((mst G) -> (mnode G) -> bool)"
     if k == "label": return "(option Z)"
     if k == "labelfn": return "(Z -> Z)"
@@ -90,7 +97,7 @@ FIELDS = {
     "node": {"_parent_node": ("rd_parent", "wr_parent", TOpt(NODE)),
              "_child_nodes": ("rd_kids", "wr_kids", TList(NODE)),
              "_edge": ("rd_edge", None, EDGE),
-             "taxon": ("rd_taxon", None, TOpt(TAXON))},
+             "taxon": ("rd_taxon", "wr_taxon", TOpt(TAXON))},
     "edge": {"_head_node": ("rd_head", None, NODE),
              "length": ("rd_length", "wr_length", LEN)},
     "tree": {"_seed_node": ("rd_seed", "wr_seed", NODE),
@@ -409,6 +416,11 @@ class Fn:
     def call(self, e, env, k):
         f = e.func
         if isinstance(f, ast.Name):
+            if f.id in env.vars and env.vars[f.id][0] == "val" and env.vars[f.id][2][0] == "treemeth":
+                # x = self.meth ... x(): the bound method is called now
+                return self.call(ast.Call(func=ast.Attribute(value=ast.Name(id="self", ctx=ast.Load()),
+                                                             attr=env.vars[f.id][2][1], ctx=ast.Load()),
+                                          args=e.args, keywords=e.keywords), env, k)
             if f.id in env.vars and env.vars[f.id][0] == "val" and env.vars[f.id][2] == NFN:
                 if len(e.args) != 1 or e.keywords:
                     raise Unsupported("%s: call form of %s" % (self.name, f.id))
@@ -426,6 +438,8 @@ class Fn:
                     return self.cond(e.args[0], env, lambda e1: k("true", BOOL, e1), lambda e1: k("false", BOOL, e1), as_value=True)
 
                 def kk(at, aty, e1):
+                    if f.id == "len" and aty in DICTS:
+                        return k("(py_len %s)" % at, INT, e1)      # one entry per key
                     if aty[0] != "list":
                         raise Unsupported("%s: %s of %r" % (self.name, f.id, aty))
                     if f.id == "len":
@@ -442,6 +456,20 @@ class Fn:
                 and not e.args and not e.keywords):
             v = self.fresh("new")
             return ("(let '(%s, s) := new_node G None None None s in\n  %s)" % (v, k(v, NODE, env.changed())))
+        # rng.randrange(n) on the scripted rng: the next script entry [i] is the value returned (0 <= i < n);
+        # ValueError for an empty range
+        if (isinstance(f.value, ast.Name) and f.value.id in env.vars and env.vars[f.value.id][0] == "val"
+                and env.vars[f.value.id][2] == RNG and f.attr == "randrange" and not e.keywords and len(e.args) == 1):
+            rn = f.value.id
+
+            def kn(nt, nty, e1):
+                if nty != INT:
+                    raise Unsupported("%s: randrange of %r" % (self.name, nty))
+                v = self.fresh("draw")
+                return ("(if (Z.leb %s 0)\n  then %s\n  else (match %s with\n  | [%s] :: %s => (if (Z.ltb (Z.of_nat %s) %s)\n  then %s\n  else MFuel)\n  | _ => MFuel\n  end))"
+                        % (nt, self.rz("ValueErr", e1), e1.vars[rn][1], v, rn, v, nt,
+                           k("(Z.of_nat %s)" % v, INT, e1.bind(rn, rn, RNG))))
+            return self.cexpr(e.args[0], env, kn)
         # rng.sample(L, k) / rng.choice(L) on the scripted rng: the next script entry is the list of positions
         # drawn (sample: the entry IS what the call returned, its length is not compared with k) / [i]
         if (isinstance(f.value, ast.Name) and f.value.id in env.vars and env.vars[f.value.id][0] == "val"
@@ -750,6 +778,17 @@ class Fn:
             else:
                 raise Unsupported("%s: comparison of %r and %r" % (self.name, ta, tb))
             return "(negb %s)" % r if neg else r
+        if isinstance(op, (ast.In, ast.NotIn)) and tb in DICTS:
+            kty, eqb, _vty = DICTS[tb]
+            if ta == kty or (kty[0] == "opt" and ta == kty[1]):
+                r = "(py_is_some (py_dict_get %s %s %s))" % (eqb, self.coerce(a, ta, kty), b)
+            elif kty == NODE and ta in (TAXON, TOpt(TAXON)):
+                # a Taxon (or None) looked up among Node keys: Node.__eq__ and Taxon.__eq__ are identity
+                # (checked in Generator.run), objects of the two classes are never equal
+                r = "false"
+            else:
+                raise Unsupported("%s: membership of %r in %r" % (self.name, ta, tb))
+            return "(negb %s)" % r if isinstance(op, ast.NotIn) else r
         if isinstance(op, (ast.In, ast.NotIn)):
             if ta == NODE and tb == TList(NODE):
                 r = "(py_in (mg_eqb G) %s %s)" % (a, b)
@@ -943,6 +982,10 @@ class Fn:
                 if rebinds:
                     self.rebinds_kids = True
                 arg = "" if oty == TREE else " " + ot
+                if wr == "wr_taxon":
+                    # not a field of the interface record: a variable of the section (Model/C03ShufflePrims.v)
+                    self.gen.uses_wr_taxon = True
+                    return "(let s := wr_taxon%s %s s in\n  %s)" % (arg, self.coerce(vt, vty, ty), nxt(e1.changed(rebinds)))
                 return "(let s := %s G%s %s s in\n  %s)" % (wr, arg, self.coerce(vt, vty, ty), nxt(e1.changed(rebinds)))
             prop = self.gen.props.get((cls, tgt.attr))
             if prop and prop[1]:
@@ -968,6 +1011,10 @@ class Fn:
             if tgt.id in self.RESERVED or tgt.id in self.spec or tgt.id == "self" or (
                     tgt.id in [p[0] for p in self.params] and self.loop):
                 raise Unsupported("%s: assignment to %s" % (self.name, tgt.id))
+            # x = self.preorder_node_iter / self.leaf_node_iter: a bound method, called later as x()
+            if (isinstance(s.value, ast.Attribute) and isinstance(s.value.value, ast.Name) and s.value.value.id == "self"
+                    and self.cls == "Tree" and s.value.attr in ("preorder_node_iter", "leaf_node_iter")):
+                return nxt(env.bind(tgt.id, "<bound method>", ("treemeth", s.value.attr)))
             # alias of a child list object
             if isinstance(s.value, ast.Attribute) and s.value.attr == "_child_nodes":
                 return self.list_place(s.value, env, lambda node, e1: nxt(e1.alias(tgt.id, node)))
@@ -976,6 +1023,9 @@ class Fn:
                 if vty == TList(("any",)) and tgt.id in self.ltypes:
                     vty = self.ltypes[tgt.id]
                     vt = "(@nil %s)" % coq_ty(vty[1])
+                if vty == NDICT and isinstance(s.value, ast.Dict) and self.ltypes.get(tgt.id) in DICTS:
+                    vty = self.ltypes[tgt.id]
+                    vt = "(@nil %s)" % coq_ty(vty)[6:-1]
                 if tgt.id in self.ltypes and vty != self.ltypes[tgt.id]:
                     vt = self.coerce(vt, vty, self.ltypes[tgt.id])
                     vty = self.ltypes[tgt.id]
@@ -992,12 +1042,21 @@ class Fn:
         if isinstance(tgt, ast.Attribute):
             return self.cexpr(s.value, env, lambda vt, vty, e1: self.store_attr(tgt, vt, vty, e1, nxt))
         if isinstance(tgt, ast.Subscript) and isinstance(tgt.value, ast.Name) and tgt.value.id in env.vars \
-                and env.vars[tgt.value.id][2:] == (NDICT,):
+                and len(env.vars[tgt.value.id]) == 3 and env.vars[tgt.value.id][2] in DICTS:
             dn = tgt.value.id
+            dty = env.vars[dn][2]
+            dk, deq, dv = DICTS[dty]
             return self.cexpr(tgt.slice, env, lambda kt, kty, e1: self.cexpr(s.value, e1, lambda vt, vty, e2: (
-                "(let %s := py_dict_set (mg_eqb G) %s %s %s in\n  %s)"
-                % (dn, self.coerce(kt, kty, NODE), self.coerce(vt, vty, INT), env.vars[dn][1],
-                   nxt(e2.bind(dn, dn, NDICT))))))
+                "(let %s := py_dict_set %s %s %s %s in\n  %s)"
+                % (dn, deq, self.coerce(kt, kty, dk), self.coerce(vt, vty, dv), env.vars[dn][1],
+                   nxt(e2.bind(dn, dn, dty))))))
+        if (isinstance(tgt, ast.Tuple) and isinstance(s.value, ast.Tuple) and len(tgt.elts) == len(s.value.elts) == 2
+                and all(self.local_list_slot(t, env) for t in tgt.elts)):
+            # l[i], l[j] = (e1, e2) on local lists: both values first, then the stores left to right, each
+            # index evaluated when its store is made
+            return self.cexpr(s.value.elts[0], env, lambda v0, t0, e1: self.cexpr(
+                s.value.elts[1], e1, lambda v1, t1, e2: self.store_local_index(
+                    tgt.elts[0], v0, t0, e2, lambda e3: self.store_local_index(tgt.elts[1], v1, t1, e3, nxt))))
         if isinstance(tgt, ast.Subscript):
             def kplace(node, e1):
                 def kidx(it, ity, e2):
@@ -1034,6 +1093,24 @@ class Fn:
                 s.value.elts[1], e1, lambda v1, t1, e2: self.store_attr(
                     tgt.elts[0], v0, t0, e2, lambda e3: self.store_attr(tgt.elts[1], v1, t1, e3, nxt))))
         raise Unsupported("%s: assignment target %s" % (self.name, type(tgt).__name__))
+
+    def local_list_slot(self, t, env):
+        return (isinstance(t, ast.Subscript) and isinstance(t.value, ast.Name) and t.value.id in env.vars
+                and env.vars[t.value.id][0] == "val" and env.vars[t.value.id][2][0] == "list"
+                and t.value.id not in [p[0] for p in self.params])
+
+    def store_local_index(self, t, vt, vty, env, nxt):
+        """l[i] = v on a local list value: IndexError when i is out of range"""
+        name = t.value.id
+        _k, lt, lty = env.vars[name]
+
+        def ki(it, ity, e1):
+            if ity != INT:
+                raise Unsupported("%s: index of type %r" % (self.name, ity))
+            return ("(match py_set_index %s %s %s with\n  | Some %s => %s\n  | None => %s\n  end)"
+                    % (e1.vars[name][1], it, self.coerce(vt, vty, lty[1]), name, nxt(e1.bind(name, name, lty)),
+                       self.rz("IndexErr", e1)))
+        return self.cexpr(t.slice, env, ki)
 
     def local_pop(self, v, env):
         """v is `x.pop()` on a local list value"""
@@ -1199,10 +1276,13 @@ class Fn:
                     and n.value.id not in assigned):
                 assigned.append(n.value.id)
             if (isinstance(n, ast.Call) and isinstance(n.func, ast.Attribute)
-                    and n.func.attr in ("append", "shuffle", "sample", "choice", "randrange")
+                    and n.func.attr in ("append", "shuffle", "sample", "choice", "randrange", "pop")
                     and isinstance(n.func.value, ast.Name) and n.func.value.id in env.vars
                     and env.vars[n.func.value.id][0] == "val" and n.func.value.id not in assigned):
                 assigned.append(n.func.value.id)
+            if (isinstance(n, ast.Subscript) and isinstance(n.ctx, ast.Store) and self.local_list_slot(n, env)
+                    and n.value.id not in assigned):
+                assigned.append(n.value.id)
         targets = [n.id for n in ast.walk(s.target) if isinstance(n, ast.Name)]
         carried = [n for n in assigned if n in env.vars and n not in targets]
         for n in carried:
@@ -1223,6 +1303,12 @@ class Fn:
         dirty_next = []
 
         def kiter(it, ity, e1):
+            if ity in DICTS:
+                # for k in d: the keys in insertion order (py_dict_set replaces in place / appends); the dict
+                # must not be changed by the body
+                if isinstance(s.iter, ast.Name) and s.iter.id in assigned:
+                    raise Unsupported("%s: dict %s changed while iterated" % (self.name, s.iter.id))
+                it, ity = "(map fst %s)" % it, TList(DICTS[ity][0])
             if ity[0] != "list":
                 raise Unsupported("%s: for over %r" % (self.name, ity))
             ety = ity[1]
@@ -1401,6 +1487,8 @@ PLAN = [
      {"labels": TList(INT), "update_bipartitions": BOOL, "suppress_unifurcations": BOOL}, None),
     ("Tree", "resolve_polytomies", "eff", UNIT, {"limit": INT, "update_bipartitions": BOOL, "rng": TOpt(RNG)}, None,
      {"polytomies": TList(NODE)}),
+    ("Tree", "shuffle_taxa", "eff", OTDICT, {"include_internal_nodes": BOOL, "rng": RNG}, None,
+     {"current_node_taxon_map": NTDICT, "node_taxa": TList(TAXON), "current_to_shuffled_taxon_map": OTDICT}),
     # last: until here calls of reseed_at are calls of the interface operation
     ("Tree", "reseed_at", "eff", TOpt(NODE),
      {"new_seed_node": NODE, "update_bipartitions": BOOL, "collapse_unrooted_basal_bifurcation": BOOL,
@@ -1427,6 +1515,111 @@ EXTERNS = [
      {"suppress_unifurcations": BOOL, "collapse_unrooted_basal_bifurcation": BOOL, "suppress_storage": BOOL,
       "is_bipartitions_mutable": BOOL}),
 ]
+
+
+# --------------------------------------------------------------------------------------------------
+# Statement blocks compiled as functions of their own ("fragments").
+#
+# Tree.reroot_at_midpoint is not compiled here as a whole (its distance-matrix queries and float
+# arithmetic are outside this translator; py/dv/gen_midpoint.py compiles it over rose trees), but the
+# statements of it that manipulate the object graph directly - the edge split - are: the maximal run of
+# consecutive POINTER STATEMENTS of the method is compiled, statement by statement, with the machinery
+# above, as the function  Tree_reroot_at_midpoint__edge_split  whose parameters are the variables the
+# block reads before it assigns them (in order of first use in the source text) and whose result is
+# the one local variable the block assigns.  Nothing about the number, the order or the shape of the
+# statements of the block is checked here: an edit changes the generated function and breaks the
+# proofs about it (Props/C03Gen.v midpoint_split_refines, Props/C07Gen.v).  gen_midpoint.py uses the
+# same locator and emits ONE operation for the block, with the same parameters in the same order.
+def _root_name(e):
+    while isinstance(e, ast.Attribute):
+        e = e.value
+    return e.id if isinstance(e, ast.Name) else None
+
+
+def is_node_ctor(v):
+    return (isinstance(v, ast.Call) and isinstance(v.func, ast.Attribute) and v.func.attr == "Node"
+            and isinstance(v.func.value, ast.Name) and v.func.value.id == "_node" and not v.args and not v.keywords)
+
+
+def is_pointer_stmt(s):
+    """a statement that reads / writes the object graph through a LOCAL variable (never through self):
+    x.method(...) as a statement, x = _node.Node(), x.attr[.attr] = value"""
+    if isinstance(s, ast.Expr) and isinstance(s.value, ast.Call) and isinstance(s.value.func, ast.Attribute):
+        r = _root_name(s.value.func.value)
+        return r is not None and r not in ("self", "warnings")
+    if isinstance(s, ast.Assign) and len(s.targets) == 1:
+        t = s.targets[0]
+        if isinstance(t, ast.Name) and is_node_ctor(s.value):
+            return True
+        if isinstance(t, ast.Attribute):
+            r = _root_name(t)
+            return r is not None and r != "self"
+    return False
+
+
+def pointer_blocks(fn):
+    """all maximal runs of consecutive pointer statements in the statement lists of fn"""
+    runs = []
+
+    def visit(stmts):
+        cur = []
+        for s in stmts:
+            if is_pointer_stmt(s):
+                cur.append(s)
+            else:
+                if cur:
+                    runs.append(cur)
+                cur = []
+                for field in ("body", "orelse", "finalbody"):
+                    sub = getattr(s, field, None)
+                    if isinstance(sub, list) and sub and isinstance(sub[0], ast.stmt):
+                        visit(sub)
+                for h in getattr(s, "handlers", []) or []:
+                    visit(h.body)
+        if cur:
+            runs.append(cur)
+    visit(list(fn.body))
+    return runs
+
+
+def pointer_block(fn):
+    """(statements, inputs [(name, 'node' | 'len')], output name) of THE pointer block of fn"""
+    runs = pointer_blocks(fn)
+    if len(runs) != 1:
+        raise Unsupported("%s: %d pointer blocks (exactly one expected)" % (fn.name, len(runs)))
+    block = runs[0]
+    stored, inputs, lens, outs = set(), [], set(), []
+    for s in block:
+        names = sorted((n for n in ast.walk(s) if isinstance(n, ast.Name)), key=lambda n: (n.lineno, n.col_offset))
+        if isinstance(s, ast.Assign) and isinstance(s.targets[0], ast.Attribute) and s.targets[0].attr == "length" \
+                and isinstance(s.value, ast.Name):
+            lens.add(s.value.id)
+        for n in names:
+            if isinstance(n.ctx, ast.Load) and n.id not in stored and n.id != "_node" and n.id not in inputs:
+                inputs.append(n.id)
+        for n in names:
+            if isinstance(n.ctx, ast.Store):
+                stored.add(n.id)
+                if n.id not in outs:
+                    outs.append(n.id)
+    if len(outs) != 1:
+        raise Unsupported("%s: the pointer block assigns %d local variables (one expected)" % (fn.name, len(outs)))
+    if "self" in inputs:
+        raise Unsupported("%s: the pointer block uses self" % fn.name)
+    return block, [(n, "len" if n in lens else "node") for n in inputs], outs[0]
+
+
+FRAGMENTS = [("Tree", "reroot_at_midpoint", "reroot_at_midpoint__edge_split")]
+
+
+def fragment_def(cls, meth, name):
+    """the pointer block of cls.meth as a FunctionDef of its own + the parameter types"""
+    block, inputs, out = pointer_block(find_method(cls, meth))
+    args = ast.arguments(posonlyargs=[], args=[ast.arg(arg="self")] + [ast.arg(arg=n) for n, _k in inputs], vararg=None,
+                         kwonlyargs=[], kw_defaults=[], kwarg=None, defaults=[])
+    fd = ast.FunctionDef(name=name, args=args, decorator_list=[],
+                         body=list(block) + [ast.Return(value=ast.Name(id=out, ctx=ast.Load()))])
+    return fd, {n: (LEN if k == "len" else NODE) for n, k in inputs}, [n for n, _k in inputs], out
 
 
 def find_method(cls, name):
@@ -1553,6 +1746,9 @@ class Generator:
                "",
                "Section Mutators.",
                "Variable G : mutgraph.",
+               "(* x.taxon = v: not a field of the interface record; the definitions that assign taxa (shuffle_taxa)",
+               "   are abstracted over it *)",
+               "Variable wr_taxon : mnode G -> option Z -> mst G -> mst G.",
                ""]
         self.register_externs()
         for entry in PLAN:
@@ -1570,6 +1766,17 @@ class Generator:
                                   "spec": tuple(sorted((spec or {}).items())), "rebinds_kids": fn.rebinds_kids,
                                   "needs_fuel": fn.needs_fuel, "implicit": list(fn.implicit)}
             out.append("(* %s.%s%s *)" % (cls, meth, (" with " + ", ".join("%s=%s" % kv for kv in spec.items())) if spec else ""))
+            out.append(text)
+            out.append("")
+        for cname, meth, fname in FRAGMENTS:
+            fd, ptypes, inputs, outv = fragment_def(self.classes[cname], meth, fname)
+            fn = Fn(self, cname, fd, "eff", NODE, ptypes, None)
+            self.extra_defs = []
+            text = fn.compile()
+            if self.extra_defs or fn.needs_fuel or fn.implicit:
+                raise Unsupported("%s: fragment needs more than its inputs" % fn.name)
+            out.append("(* the pointer block of %s.%s (source lines %d-%d), inputs in order of first use: %s; result: %s *)"
+                       % (cname, meth, fd.body[0].lineno, fd.body[-2].end_lineno, ", ".join(inputs), outv))
             out.append(text)
             out.append("")
         out.append("End Mutators.")
